@@ -1,5 +1,6 @@
 import Vorbis.Generated.Templates
 import Vorbis.Generated.Consts
+import Vorbis.F32
 /-
 Decision logic of the encoder set-up API (lib/vorbisenc.c): `get_setup_template`,
 `vorbis_encode_setup_vbr`, `vorbis_encode_setup_managed`, `vorbis_encode_setup_init`, the one-step
@@ -56,7 +57,26 @@ def findInterval (map : List (Int × Nat)) (mappings : Nat) (req : Dbl) : Option
         some (go 0 (mappings + 1))
   | _, _ => none
 
-/-- `get_setup_template`: index of the template and the interval number -/
+/-- `(int)hi->base_setting`, following the float arithmetic of `get_setup_template` exactly:
+    `float low=map[j], high=map[j+1]; float del=(req-low)/(high-low); *base_setting=j+del;`
+    (`req-low` and the division are done in double, `high-low` and `j+del` in float), followed by
+    the clamp back into interval `j`; the all-points match stores `j-.001`. -/
+def baseIndex (t : TemplateRow) (map : List (Int × Nat)) (j : Nat) (req : Dbl) : Nat :=
+  if j = t.mappings then j - 1
+  else match req, map[j]?, map[j + 1]? with
+    | .fin n d, some lo, some hi =>
+        let low := F32.r32 lo
+        let high := F32.r32 hi
+        let hl := F32.r32 (F32.sub high low)
+        if hl.1 = 0 then j else
+        let nm := F32.r64 (F32.sub (n, d) low)
+        let del := F32.r32 (F32.r64 (F32.div nm hl))
+        let base := F32.r32 (F32.add ((j : Int), 1) del)
+        -- `if(*base_setting>=j+1)*base_setting=j+1-.001;` (the fix for finding F15)
+        if F32.floorR base ≥ (j : Int) + 1 then j else (F32.floorR base).toNat
+    | _, _, _ => j
+
+/-- `get_setup_template`: the template and `(int)base_setting` -/
 def getTemplate (ts : List TemplateRow) (ch srate : Int) (req : Dbl) (byRate : Bool) : Option (TemplateRow × Nat) :=
   match ts with
   | [] => none
@@ -65,13 +85,10 @@ def getTemplate (ts : List TemplateRow) (ch srate : Int) (req : Dbl) (byRate : B
         match (if byRate then t.rate else t.quality) with
         | some map =>
             match findInterval map t.mappings req with
-            | some j => some (t, j)
+            | some j => some (t, baseIndex t map j req)
             | none => getTemplate rest ch srate req byRate
         | none => getTemplate rest ch srate req byRate
       else getTemplate rest ch srate req byRate
-
-/-- `(int)hi->base_setting`: `j` inside an interval (0 ≤ del < 1), `mappings-1` for the all-points match `j-.001` -/
-def baseIndex (t : TemplateRow) (j : Nat) : Nat := if j = t.mappings then j - 1 else j
 
 /-- the request divided by the channel count (`if(q_or_bitrate)req/=ch;`), exact -/
 def divReq (nominal ch : Int) : Dbl :=
@@ -95,7 +112,7 @@ def setupVbr (s : St) (ch rate : Int) (req : Dbl) : St × Int :=
   if rate ≤ 0 then (s, EINVAL)
   else match getTemplate templates ch rate req false with
     | none => (s, EIMPL)
-    | some (t, j) => ({ s with channels := ch, rate := rate, setup := some (t.idx, baseIndex t j), managed := false }, 0)
+    | some (t, is) => ({ s with channels := ch, rate := rate, setup := some (t.idx, is), managed := false }, 0)
 
 /-- the nominal rate `vorbis_encode_setup_managed` derives when none is given -/
 def deriveNominal (mx nom mn : Int) : Option Int :=
@@ -114,7 +131,7 @@ def setupManaged (s : St) (ch rate mx nom mn : Int) : St × Int :=
     | some n =>
         match getTemplate templates ch rate (divReq n ch) true with
         | none => (s, EIMPL)
-        | some (t, j) => ({ s with channels := ch, rate := rate, setup := some (t.idx, baseIndex t j), managed := true }, 0)
+        | some (t, is) => ({ s with channels := ch, rate := rate, setup := some (t.idx, is), managed := true }, 0)
 
 /-- `vorbis_encode_setup_init` -/
 def setupInit (s : St) : St × Int :=
